@@ -32,9 +32,9 @@ MANIFEST = dict(
          "signature not claimed by a built-in depacker, with the fixed argv holding the file name as one element (C10_exec, "
          "C10_exec_only_for_paths, C10_argv_single_argument). The premise that these are the only ways a path reaches the OS is the generated "
          "table of every open/stat/opendir/mkstemp/unlink/fork/exec call site of the compiled sources (clang AST of all translation units, "
-         "data-flow classification of the path argument), re-proved guarded on every run (C10_sites_guarded, C10_fields_guarded, C10_argv_tie). "
+         "data-flow classification of the path argument), re-proved guarded on every run (C10_sites_guarded, C10_fields_guarded, C10_argv_tie), together with the generated list of every path buffer variable and its storage class, all automatic, so no context or thread can open a path another one resolved (C10_path_buffers_automatic). "
          "The models are tied to the C by differential correspondence on adversarial names and real directories, and a link-time interposition "
-         "oracle judges every OS call made during loads of generated hostile modules from all entry points.",
+         "oracle judges every OS call made during loads of generated hostile modules from all entry points, including two contexts loading multi-file modules from different directories in two threads with interleavings forced at the companion opens (judged per thread; thorough tier repeats them under ThreadSanitizer).",
     note="Trusted: Lean kernel (propext/Classical.choice/Quot.sound), the hand-written model XmpModel/PathSafe.lean, tools/gen_open_sites.py "
          "(clang JSON AST + an intra-procedural provenance classifier that is conservative: unknown writes to a path buffer become class "
          "`other` and fail the theorem), the harnesses and the differ. Modelled-not-verified: readdir never returns names with '/', C locale "
@@ -48,7 +48,7 @@ NS = "Xmp.PathSafe."
 REQUIRED = [NS + t for t in (
     "C10_sanitised", "C10_sanitised_one_colon", "C10_confined", "C10_slash_never_matches", "C10_no_dir_no_open", "C10_dirbase",
     "C10_companion_flt_partial", "C10_companion_flt_full", "C10_companion_flt_counterexample", "C10_companion_mfp", "C10_companion_none", "C10_exec", "C10_exec_only_for_paths",
-    "C10_argv_single_argument", "C10_sites_guarded", "C10_fields_guarded", "C10_argv_tie")]
+    "C10_argv_single_argument", "C10_sites_guarded", "C10_fields_guarded", "C10_argv_tie", "C10_path_buffers_automatic")]
 
 
 def scratch_dir(ck, tag):
